@@ -62,7 +62,12 @@ def count_nested(df, nested, by=None, join=True) -> NestedFrame:
         counts = counts.rename(columns={colname: f"n_{nested}_{colname}" for colname in counts.columns})
         counts = counts.reindex(sorted(counts.columns), axis=1)
     if join:
-        return df.join(counts)
+        # counts has the index of df itself, row for row: attach the count column(s) by position
+        # (an index join would multiply the rows that share a label)
+        out_df = df.copy()
+        for colname, col in (counts.to_frame() if isinstance(counts, pd.Series) else counts).items():
+            out_df[colname] = col
+        return out_df
     # else just return the counts NestedFrame
     if isinstance(counts, pd.Series):  # for by=None, which returns a Series
         counts = NestedFrame(counts.to_frame())
